@@ -111,6 +111,14 @@ func init() {
 		ex.bigSet(args[0], q, fr, pos)
 		return tuple{args[0], args[3]}
 	})
+	reg("(*math/big.Int).DivMod", func(ex *Exec, fr *frame, pos token.Pos, args []value) value {
+		x, y := ex.bigOf(args[1], fr, pos), ex.bigOf(args[2], fr, pos)
+		nz(ex, fr, pos, y)
+		q, m := ex.b.Div(x, y), ex.b.Mod(x, y) // Euclidean, like SMT-LIB
+		ex.bigSet(args[3], m, fr, pos)
+		ex.bigSet(args[0], q, fr, pos)
+		return tuple{args[0], args[3]}
+	})
 	reg("(*math/big.Int).Div", func(ex *Exec, fr *frame, pos token.Pos, args []value) value {
 		x, y := ex.bigOf(args[1], fr, pos), ex.bigOf(args[2], fr, pos)
 		nz(ex, fr, pos, y)
